@@ -258,7 +258,11 @@ Proof. induction k as [|k IH]; intros j; simpl; [reflexivity|]. unfold user_fram
 Definition mult (m : mode) : nat := match m with MRaiseE | MLater => 2 | _ => 1 end.
 
 Definition bottom_user (b : bottom) : list frame :=
-  match b with BRaise k => helper_frames k 1%Z | BErrorFuture => [] end.
+  match b with
+  | BRaise k => helper_frames k 1%Z
+  | BErrorFuture => []
+  | BPrepared k => helper_frames k 1%Z ++ [PREP_SITE]
+  end.
 
 (* the reading of the statement: user frames of the error stored on the task at level i *)
 Fixpoint expected (i : Z) (ms : list (mode * how)) (b : bottom) : option (list frame) :=
@@ -279,11 +283,12 @@ Fixpoint expected (i : Z) (ms : list (mode * how)) (b : bottom) : option (list f
 (* invariant of an error stored on a task: its _traceback is the traceback it was caught with *)
 Definition glued (e : exn_st) : Prop := pr e = Prepared (tb e) true.
 
-Lemma leave_task_glued : forall e, pr e = NotPrepared \/ (exists s, pr e = Prepared s true) ->
+Lemma leave_task_glued : forall e,
+  pr e = NotPrepared \/ (exists s, pr e = Prepared s true) \/ (exists s, pr e = Prepared s false) ->
   glued (leave_task e) /\ user_frames (tb (leave_task e)) = user_frames (tb e).
 Proof.
   intros e H. unfold leave_task, accept_error, glued.
-  rewrite pushes_pr. destruct H as [H|[s H]]; rewrite H; simpl; auto.
+  rewrite pushes_pr. destruct H as [H|[[s H]|[s H]]]; rewrite H; simpl; auto.
 Qed.
 
 Lemma arrive_spec : forall i h e, glued e ->
@@ -296,7 +301,7 @@ Qed.
 Lemma bottom_result_spec : forall i b,
   glued (bottom_result i b) /\ user_frames (tb (bottom_result i b)) = FTask i :: bottom_user b.
 Proof.
-  intros i b. destruct b as [k|]; unfold bottom_result.
+  intros i b. destruct b as [k| |k]; unfold bottom_result.
   - destruct (leave_task_glued (push (FTask i) (pushes (rev (helper_frames k 1%Z)) fresh_exn))) as [G U].
     { left. simpl. rewrite pushes_pr. reflexivity. }
     split; [exact G|]. rewrite U. simpl. rewrite pushes_tb. rewrite rev_involutive. simpl.
@@ -305,6 +310,22 @@ Proof.
   - match goal with |- glued (leave_task ?x) /\ _ => destruct (leave_task_glued x) as [G U] end.
     { left. reflexivity. }
     split; [exact G|]. rewrite U. reflexivity.
+  - destruct (leave_task_glued (push (FTask i) (pushes (rev (helper_frames k 1%Z)) prepared_exn))) as [G U].
+    { right. right. simpl. rewrite pushes_pr. eexists. reflexivity. }
+    split; [exact G|]. rewrite U. simpl. rewrite pushes_tb. rewrite rev_involutive. simpl.
+    unfold user_frames at 1. simpl. fold (user_frames (helper_frames k 1%Z ++ [PREP_SITE])).
+    rewrite user_frames_app, user_helper_frames. reflexivity.
+Qed.
+
+(* the code as found: the traceback stored for an instance prepared elsewhere does not contain
+   the frame of the task that raised it (nor anything else of this computation) *)
+Theorem prepared_instance_as_found_loses_level : forall i k,
+  let e := accept_error_as_found
+             (pushes [FInt I_cog; FInt I_continue]
+                     (push (FTask i) (pushes (rev (helper_frames k 1%Z)) prepared_exn))) in
+  pr e = Prepared [PREP_SITE] true.
+Proof.
+  intros i k. unfold accept_error_as_found. rewrite pushes_pr. simpl. rewrite pushes_pr. reflexivity.
 Qed.
 
 Theorem task_result_spec : forall ms i b,
@@ -320,14 +341,14 @@ Proof.
     destruct (task_result (i + 1)%Z ms b) as [e|]; destruct (expected (i + 1)%Z ms b) as [fs|]; try contradiction; auto.
     destruct IH as [G U]. destruct (arrive_spec i h e G) as [Ap At].
     destruct m; simpl.
-    + (* MPass *) destruct (leave_task_glued (arrive i h e)) as [G' U']; [right; rewrite Ap; eexists; exact G|].
+    + (* MPass *) destruct (leave_task_glued (arrive i h e)) as [G' U']; [right; left; rewrite Ap; eexists; exact G|].
       split; [exact G'|]. rewrite U', At, U. reflexivity.
-    + destruct (leave_task_glued (arrive i h e)) as [G' U']; [right; rewrite Ap; eexists; exact G|].
+    + destruct (leave_task_glued (arrive i h e)) as [G' U']; [right; left; rewrite Ap; eexists; exact G|].
       split; [exact G'|]. rewrite U', At, U. reflexivity.
-    + destruct (leave_task_glued (push (FTask i) (arrive i h e))) as [G' U']; [right; simpl; rewrite Ap; eexists; exact G|].
+    + destruct (leave_task_glued (push (FTask i) (arrive i h e))) as [G' U']; [right; left; simpl; rewrite Ap; eexists; exact G|].
       split; [exact G'|]. rewrite U'. simpl. unfold user_frames at 1. simpl. fold (user_frames (tb (arrive i h e))).
       rewrite At, U. reflexivity.
-    + destruct (leave_task_glued (push (FTask i) (arrive i h e))) as [G' U']; [right; simpl; rewrite Ap; eexists; exact G|].
+    + destruct (leave_task_glued (push (FTask i) (arrive i h e))) as [G' U']; [right; left; simpl; rewrite Ap; eexists; exact G|].
       split; [exact G'|]. rewrite U'. simpl. unfold user_frames at 1. simpl. fold (user_frames (tb (arrive i h e))).
       rewrite At, U. reflexivity.
     + destruct (leave_task_glued (push (FTask i) fresh_exn)) as [G' U']; [left; reflexivity|].
